@@ -15,4 +15,33 @@ func (s *Semaphore) Release()
   requires s != nil && s.sem != nil
   modifies wHeld
   ensures wHeld == old(store(wHeld, ref(s.sem), wHeld[ref(s.sem)] - 1))
+
+// ---- C17: run-time change of the cap ----
+// The Weighted semaphore has size maxCapacity; maxCapacity - realCapacity of its units are held back as a
+// reserve, so that at most realCapacity units are available to connections. SetMaxCount records the new
+// capacity under the lock and adjusts the reserve in the background by exactly (old - new): Release and
+// Acquire commute, so after all adjustments of any number of concurrent calls ran, the reserve is
+// maxCapacity - (last recorded capacity), whatever the order. No connection's unit is touched.
+ghost var gOldCap int
+ghost var gNewCap int
+
+func NewSem(n uint32) (s *Semaphore)
+  flag allocates
+  ensures s != nil && fresh(s) && s.sem != nil && s.realCapacity == n
+  ensures reserve-holds-back-everything-above-the-cap: wHeld[ref(s.sem)] == maxCapacity - n
+  modifies wHeld
+
+func (s *Semaphore) SetMaxCount(n int64) (done chan struct{})
+  flag allocates
+  requires s != nil && s.sem != nil
+  modifies s.realCapacity, gOldCap, gNewCap
+  ensures recorded-capacity-is-the-new-one-capped: s.realCapacity == min(n, maxCapacity) && gNewCap == s.realCapacity && gOldCap == old(s.realCapacity)
+  ensures connections-keep-their-units: wHeld == old(wHeld)
+  ghost at unlock lock: gOldCap := old
+  ghost at unlock lock: gNewCap := s.realCapacity
+  closure[1] ()
+    requires s != nil && s.sem != nil
+    modifies wHeld
+    ensures reserve-adjusted-by-exactly-the-difference: wHeld == old(store(wHeld, ref(s.sem), wHeld[ref(s.sem)] + (old - n)))
+  end
 @*/
